@@ -367,10 +367,8 @@ func RunCheck(prop, tier string, seed int64, par int) int {
 		caseKeys = append(caseKeys, k)
 	}
 	sort.Strings(caseKeys)
-	evaluations := counters["evaluations"]
-	if evaluations == 0 {
-		evaluations = counters["tx"] + counters["blocks"]
-	}
+	// transactions delivered + blocks executed (each is decided by the monitors) + direct calls / probes counted by scenarios
+	evaluations := counters["evaluations"] + counters["tx"] + counters["blocks"]
 	ev.Coverage["evaluations"] = evaluations
 	ev.Coverage["distinct_nontrivial"] = len(caseKeys)
 	ev.Coverage["rule"] = spec.Rule
